@@ -41,6 +41,9 @@ type XCase struct {
 	// MaxRetries, when set, is assigned to the package's exported MaxRetries setting for this
 	// history (unset: the default of 2)
 	MaxRetries *int `json:"max_retries,omitempty"`
+	// NoAggregation: the process is configured without AggregateElements (it correlates and
+	// expires flows but keeps no statistics)
+	NoAggregation bool `json:"no_aggregation,omitempty"`
 }
 
 // XStats is what a run observed.
@@ -63,6 +66,9 @@ func RunX(c XCase, st *XStats) *ev.Failure {
 	}
 	defer func() { intermediate.MaxRetries = 2 }()
 	ap := New(a, in, nil, 1)
+	if c.NoAggregation {
+		ap = NewWith(a, in, nil, 1, nil)
+	}
 	m := NewXModel(a, in, intermediate.MaxRetries)
 	keyToFlow := map[intermediate.FlowKey]int{}
 	for i, f := range c.Flows {
